@@ -115,6 +115,53 @@ class Hist:
         self.ops.append(kw)
 
 
+# ---------------------------------------------------------------- the SAME text called again on one instance
+# Every call is judged on its own: it preprocesses, parses and executes its text NOW (value from the current globals / counters),
+# and every diagnostic of the preprocessor and the parser reaches the callback again with the call data of this call.
+# Implementation-only oracle (the model's front ends are stateless): the expected log lines are known by construction, and a
+# repetition with unchanged inputs must give the records of the first call again (apart from the call data).
+def repeat_histories(rng, thorough):
+    out = []
+
+    def K(h, cd, text, expect=None, same_as=None, cls="expect"):
+        o = dict(op="K", h="0", cd=cd, ty="s", text=text.encode(), cls=cls)
+        if expect is not None:
+            o["expect"] = expect
+        if same_as is not None:
+            o["same_as"] = same_as
+        h.add(**o)
+        return len(h.ops) - 1
+    for rep in range(6 if thorough else 2):
+        a, b, c = rng.sample(range(2, 90), 3)
+        # __EVAL reads a global that other calls change in between
+        h = Hist(); h.add(op="C", user=4, mr=0)
+        t = "diag_log __EVAL(ga)"
+        K(h, 61, "ga = %d" % a, expect=[]); K(h, 62, t, expect=[str(a)]); K(h, 63, "ga = %d" % b, expect=[])
+        K(h, 64, t, expect=[str(b)]); K(h, 65, t, expect=[str(b)]); K(h, 66, "ga = %d; gb = 1" % c, expect=[]); K(h, 67, t, expect=[str(c)])
+        h.add(op="S", h="0"); h.add(op="D", h="0"); out.append(("repeat:eval-global", h))
+        # __EVAL / __EXEC of an expression over two globals, text with other statements around it
+        h = Hist(); h.add(op="C", user=4, mr=0)
+        t = "private _v = __EVAL(ga + gb); diag_log [_v, ga]"
+        K(h, 61, "ga = %d; gb = %d" % (a, b), expect=[]); K(h, 62, t, expect=["[%d %d]" % (a + b, a)])
+        K(h, 63, "gb = %d" % c, expect=[]); K(h, 64, t, expect=["[%d %d]" % (a + c, a)]); K(h, 65, t, expect=["[%d %d]" % (a + c, a)])
+        h.add(op="D", h="0"); out.append(("repeat:eval-expression", h))
+        # __COUNTER__ counts on from call to call of the instance
+        h = Hist(); h.add(op="C", user=4, mr=0)
+        t = "diag_log __COUNTER__"
+        K(h, 61, t, expect=["0"]); K(h, 62, "ga = 1", expect=[]); K(h, 63, t, expect=["1"]); K(h, 64, t, expect=["2"])
+        K(h, 65, "diag_log [__COUNTER__, __COUNTER__]", expect=["[3 4]"]); K(h, 66, t, expect=["5"])
+        h.add(op="D", h="0"); out.append(("repeat:counter", h))
+        # non-fatal diagnostics of the preprocessor (macro defined twice) and of the run (undefined variable): delivered on every call
+        h = Hist(); h.add(op="C", user=4, mr=0)
+        t = "#define VERIF_A 1\n#define VERIF_A 2\ndiag_log VERIF_A"
+        i0 = K(h, 61, t, expect=["2"], cls="warns"); K(h, 62, "ga = %d" % a, expect=[])
+        K(h, 63, t, expect=["2"], same_as=i0, cls="warns"); K(h, 64, t, expect=["2"], same_as=i0, cls="warns")
+        t2 = "#define VERIF_B 1\n#define VERIF_B 1\ndiag_log [undefined_verif_var]; 7"
+        i1 = K(h, 65, t2, cls="warns"); K(h, 66, t2, same_as=i1, cls="warns")
+        h.add(op="S", h="0"); h.add(op="D", h="0"); out.append(("repeat:warnings", h))
+    return out
+
+
 def add_self_ending(h, rng, i, cd):
     """a call that ends the run itself, a status query, and calls that read / write the globals afterwards"""
     nm, text, stand_in = self_ending(rng)
@@ -144,6 +191,14 @@ def build_history(rng, g, thorough):
         cd += 1
         i = rng.choice(live)
         k = rng.random()
+        earlier = [o for o in h.ops if o["op"] == "K" and o.get("h") == str(i) and o.get("prog") not in (None, "0") and o.get("cls") in ("ok", "run", "err")]
+        if earlier and rng.random() < 0.12:
+            # the same text again on the same instance: judged on its own, like any other call (the model knows nothing of earlier texts)
+            o = dict(rng.choice(earlier)); o["cd"] = cd; o.pop("tail", None)
+            if o["cls"] == "ok":
+                o["cls"] = "run"
+            h.add(**o)
+            continue
         if k < 0.08:
             h.add(op="S", h=str(i))
         elif k < 0.16:
@@ -249,6 +304,7 @@ def main(replay=None):
             h.add(op="K", h="0", cd=21, ty="s", prog=pr_, cls=cl_, multi=nm); h.add(op="S", h="0")
             h.add(op="K", h="0", cd=22, ty="s", prog=Prog(E(Un("diag_log", Arr(Var("late"), Var("z"))))), cls="run"); h.add(op="D", h="0")
             hists.append(("multi:" + nm, h))
+        hists += repeat_histories(rng, thorough)
         for shape, ty_, text_, code_, pending_ in EVAL_SPAWN:
             h = Hist(); h.add(op="C", user=6, mr=0)
             h.add(op="K", h="0", cd=51, ty=ty_, text=text_, cls="evalspawn", shape=shape, code=code_)
@@ -277,7 +333,7 @@ def main(replay=None):
                 o["text"] = text_of[o["prog"]]
     # 2. front ends of the implementation on every (type, text)
     keys = sorted({((o["ty"] if o["op"] == "K" else "L"), o["text"]) for _, h in hists for o in h.ops
-                   if o["op"] in ("K", "L") and o.get("cls") not in ("invalid-handle", "asm-finding", "evalspawn", "evalspawn2")})
+                   if o["op"] in ("K", "L") and o.get("cls") not in ("invalid-handle", "asm-finding", "evalspawn", "evalspawn2", "expect", "warns")})
     rc, pr, _ = V.run_lines_parallel([hapi, "probe"], ["%s\t%s" % (hx(t), hx(x)) for t, x in keys], timeout=3000)
     probe = dict(zip(keys, pr))
 
@@ -317,7 +373,7 @@ def main(replay=None):
                     hops.append("K%s:%d:%s:%s:%s" % (o["h"], o["cd"], hx(o["ty"]), hx(buf), ln))
                 if o.get("cls") == "invalid-handle":
                     fr = "F-"
-                elif o.get("cls") in ("opaque", "asm-finding", "evalspawn", "evalspawn2") or (o.get("cls") == "selfend" and o.get("prog") is None):
+                elif o.get("cls") in ("opaque", "asm-finding", "evalspawn", "evalspawn2", "expect", "warns") or (o.get("cls") == "selfend" and o.get("prog") is None):
                     fr = None
                 else:
                     fr, found = front(o)
@@ -421,6 +477,8 @@ def main(replay=None):
                     want = [o["code"]]
                 elif cls == "evalspawn2":
                     want = [0]
+                elif cls in ("expect", "warns"):
+                    want = [0]
                 elif o["op"] == "K" and o["ty"] not in TY and cls != "ppfail":
                     want = [-5]
                 elif o["op"] == "K" and o["ty"] == "p" and cls != "ppfail":
@@ -476,6 +534,19 @@ def main(replay=None):
                                       " (first call: type '%s', %r)" % (h.ops[k - 2]["ty"], h.ops[k - 2]["text"].decode("latin-1")), dict(rep, at=k))
                         bad = True
                         break
+            if why is None and o.get("cls") in ("expect", "warns"):
+                got = [r[3][2:-1] for r in recs if len(r) > 3 and r[3].startswith("M<") and not r[3].startswith("M<VALUE ")]
+                if "expect" in o and got != o["expect"]:
+                    why = ("the call did not preprocess / parse / execute its text anew: it logged %s, the text evaluated with the instance's current "
+                           "globals and counters logs %s (text %r)" % (got, o["expect"], o["text"].decode("latin-1")))
+                if why is None and o["cls"] == "warns" and not any(r[2] == "2" for r in recs):
+                    why = "no warning reached the callback for a text that defines a macro twice"
+                if why is None and "same_as" in o:
+                    first = [tuple(x[:1]) + tuple(x[2:]) for x in ip[o["same_as"]][1]]
+                    mine = [tuple(x[:1]) + tuple(x[2:]) for x in recs]
+                    if first != mine:
+                        why = ("a repeated call of the same text did not deliver the diagnostics its first call delivered (every diagnostic of a call "
+                               "has to reach the callback with the call data of THAT call): first call %s, this call %s" % (first, mine))
             if why:
                 if o.get("cls") == "asm-finding" and run.known.has(PID, FINDING_ASM):
                     run.known_finding(FINDING_ASM)
